@@ -9,8 +9,8 @@ from . import common
 
 ID = "C08"
 LEVEL = "exploration"
-BUDGET = {"quick": 1600, "thorough": 40000}
-WALL_CAP = {"quick": 420, "thorough": 3300}
+BUDGET = {"quick": 32000, "thorough": 640000}
+WALL_CAP = {"quick": 600, "thorough": 5400}
 RULE = ("case = generated 2D plotfile (rectangular domains of >= 4 cells per direction, non-zero origin, anisotropic "
         "cells, non-square boxes, nested partially refined levels, scattered/non-monotone layout, unique payload per "
         "cell) x field list (names in any order, 'grid_level', 'all') x level limit x {serial, pool under a drawn "
